@@ -246,7 +246,7 @@ class CrossWorld:
             self.phase = 2
             sch.log('phase2')
             self.run_phase(self.prog['phase2']['target'], [C for C in self.cs if C.phase == 2])
-        self.aa._CROSS_LOOP_POOL.shutdown(wait=True)
+        self.sch.seams.shutdown_pools()
 
     # ----------------------------------------------------------------- judge
     def judge(self, probe_log):
@@ -321,6 +321,7 @@ def execute(prog, sspec, keep_log=False):
     sch.log('prog', json.dumps(prog, sort_keys=True))
     w = CrossWorld(prog, sch, aa)
     seams = AsyncioSeams(aa).install()
+    sch.seams = seams
     install_policy()
     try:
         try:
